@@ -37,8 +37,9 @@ Example C05_nonvacuous :
   [ONone; ONum 0; ONone; ONone; ONum 2; OGet (Some (NoteOn 0 60 64)); ONone; OMsgs [Clock; NoteOff 0 1 2]; OGet None].
 Proof. reflexivity. Qed.
 
-(* with one iterator kept alive across feeds, get_message calls and other iterations, in ANY history of any length: retrieved ++ queued =
-   parse_all(everything fed) - nothing lost, duplicated or reordered *)
+(* with ANY number of iterators kept alive across feeds, get_message calls and other iterations and advanced in any order (INew creates one,
+   INextK k advances the k-th), in ANY history of any length: retrieved ++ queued = parse_all(everything fed) - nothing lost, duplicated or
+   reordered *)
 Theorem C05_live_iterator : forall ops, Forall byte (ifed ops) ->
   exists ms, parse_all (ifed ops) = Ok ms /\ ms = retrieved (snd (i_run i_init ops)) ++ p_q (i_p (fst (i_run i_init ops))).
 Proof. exact live_iterator_fifo. Qed.
